@@ -16,11 +16,14 @@ QUICK = [
     dict(mode="ex", maxops=3, maxobjs=4, sizes="SizesSmall", shapes="ShapesSmall", complens="{2}", ops=OPS, limit=4000),
     dict(mode="sim", maxops=10, maxobjs=8, sizes="SizesAll", shapes="ShapesAll", complens="{0, 1, 2, 3}", ops=OPS, num=300, per_prefix=2, limit=2500),
     dict(mode="sim", maxops=8, maxobjs=7, sizes="SizesTiny", shapes="ShapesTiny", complens="{1, 2}", ops=OPS, num=300, per_prefix=1, limit=1500),
+    # overwriting populated structs through List.SetStruct / Struct.CopyFrom (planned: build, populate, overwrite)
+    dict(mode="sim", maxops=7, maxobjs=9, sizes="SizesSmall", shapes="ShapesTiny", complens="{1, 2}", ops="OpsAll", plan="PlanOverwrite", num=400, per_prefix=2, limit=1500),
 ]
 THOROUGH = [
     dict(mode="ex", maxops=3, maxobjs=4, sizes="SizesSmall", shapes="ShapesSmall", complens="{2}", ops=OPS),
     dict(mode="ex", maxops=2, maxobjs=4, sizes="SizesAll", shapes="ShapesAll", complens="{0, 1, 3}", ops=OPS),
     dict(mode="sim", maxops=12, maxobjs=10, sizes="SizesAll", shapes="ShapesAll", complens="{0, 1, 2, 3}", ops=OPS, num=600, per_prefix=2, limit=8000),
+    dict(mode="sim", maxops=7, maxobjs=9, sizes="SizesSmall", shapes="ShapesTiny", complens="{1, 2}", ops="OpsAll", plan="PlanOverwrite", num=4000, per_prefix=2, limit=12000),
 ]
 
 
